@@ -10,7 +10,7 @@ Contents
   new_parser / parse_text / parse_files  thin drivers of the REAL DecFileParser (warnings silenced)
   render                                 abstract file (list of statements) -> .dec text
   conj / expected_tables                 the conjugation rule and the tables a file states (C03/C08)
-  scenario / all_scenarios / orders      exhaustive small-scope generator of abstract files
+  scenario / all_scenarios / permute     exhaustive small-scope generator of abstract files
   evtgen_names                           the EvtGen name table of the installed `particle`
   scratch_root / pmap                    temp-dir policy (never /tmp) and fork pool (<= 16 processes)
 """
@@ -171,7 +171,7 @@ def _expansion_sizes(tables):
         for r in tab[m]:
             prod = 1
             for d in r["fs"]:
-                if d in tab:
+                if isinstance(d, str) and d in tab:
                     s = size(d, stack)
                     if s is None:
                         stack.discard(m)
@@ -264,7 +264,7 @@ def snapshot(p, chain_mothers=None, printed=True):
         chains.append([m, _q(p, "build_decay_chains", m)])
         expanded.append([m, _q(p, "expand_decay_modes", m)])
         rows = dict((a, b) for a, b in s["tables"]).get(m) or []
-        st = sorted({d for r in rows for d in r["fs"]})[:2]
+        st = sorted({d for r in rows for d in r["fs"] if isinstance(d, str)})[:2]
         stable.append([m, st, _q(p, "build_decay_chains", m, stable_particles=st)])
     s["build_decay_chains"] = chains
     s["expand_decay_modes"] = expanded
@@ -461,7 +461,7 @@ TABLE_B0 = [
 TABLE_KS = [["0.69", ["pi+", "pi-"], False, "PHSP", []], ["0.31", ["pi0", "pi0"], False, "PHSP", []]]
 TABLE_PI0 = [["0.988", ["gamma", "gamma"], False, "PHSP", []], ["0.012", ["e+", "e-", "gamma"], True, "PI0_DALITZ", []]]
 TABLE_JPSI = [["0.06", ["e+", "e-"], True, "VLL", []], ["0.06", ["mu+", "mu-"], True, "VLL", []],
-              ["0.88", ["rho0", "pi0"], False, "PHSP", []]]
+              ["0.87", ["rho0", "pi0"], False, "PHSP", []], ["0.01", ["gamma", "pi0"], True, "MA1", []]]
 TABLE_RHO = [["1.0", ["pi+", "pi-"], False, "VSS", []]]
 TABLE_DS = [["0.5", ["K+", "K-", "pi+"], False, "D_DALITZ", []], ["0.5", ["K_S0", "K+"], False, "PHSP", []]]
 
@@ -486,7 +486,7 @@ def _pair(a, b, orient):
 def scenario(cdecay_db=True, alias_pair="fwd", alias_side=0, copy_src="none", precedence=False, nosrc=0,
              fillers=0, kpair="fwd", others=False):
     """One abstract file.  Returns (units, info): `units` is a list of lists of statements (a unit is
-    permuted as a whole by `orders`).
+    moved as a whole by `permute`).
 
     cdecay_db    CDecay D- with source Decay D+ (DB conjugates)
     alias_pair   none | fwd | rev : ChargeConj MyD+ MyD- in that orientation, a Decay block for one member
@@ -549,30 +549,6 @@ def all_scenarios(space=None):
 
 def flatten(units):
     return [s for u in units for s in u]
-
-
-def orders(units, fixed_prefix=0, max_perm=5, rng=None, extra_random=0):
-    """Statement orders of a file: the given one, its reverse, every rotation; every permutation of the
-    last `max_perm` non-prefix units when asked for by the caller through permute()."""
-    head, tail = units[:fixed_prefix], units[fixed_prefix:]
-    seen = set()
-    out = []
-
-    def add(seq):
-        key = tuple(id(u) for u in seq)
-        if key not in seen:
-            seen.add(key)
-            out.append(head + list(seq))
-    add(tail)
-    add(tail[::-1])
-    for r in range(1, len(tail)):
-        add(tail[r:] + tail[:r])
-    if rng is not None:
-        for _ in range(extra_random):
-            t = list(tail)
-            rng.shuffle(t)
-            add(t)
-    return out
 
 
 def permute(units, movable_idx):
@@ -646,8 +622,9 @@ def digest(obj):
     return hashlib.sha256(json.dumps(obj, sort_keys=True, default=str).encode()).hexdigest()[:16]
 
 
-def shrink_list(items, still_fails, budget=80):
-    """Greedy one-at-a-time removal (a cheap ddmin): smallest sub-list found for which still_fails holds."""
+def shrink_list(items, still_fails, budget=80, removable=None):
+    """Greedy one-at-a-time removal (a cheap ddmin): smallest sub-list found for which still_fails holds.
+    `removable(item)` false keeps the item (used for declarations the rest of the input depends on)."""
     items = list(items)
     changed = True
     while changed and budget > 0:
@@ -655,6 +632,8 @@ def shrink_list(items, still_fails, budget=80):
         for i in range(len(items) - 1, -1, -1):
             if budget <= 0:
                 break
+            if i >= len(items) or (removable is not None and not removable(items[i])):
+                continue
             cand = items[:i] + items[i + 1:]
             budget -= 1
             try:
@@ -667,8 +646,9 @@ def shrink_list(items, still_fails, budget=80):
 
 
 def minimise_stmts(stmts, fails, budget=60, line_budget=20):
-    """Smallest statement list (then smallest tables) found by greedy removal for which `fails` still holds."""
-    small = shrink_list(stmts, fails, budget=budget)
+    """Smallest statement list (then smallest tables) found by greedy removal for which `fails` still holds.
+    Define and ModelAlias statements are kept: removing them would turn the file into a different, invalid input."""
+    small = shrink_list(stmts, fails, budget=budget, removable=lambda s: s[0] not in ("Define", "ModelAlias"))
     for i, s in enumerate(list(small)):
         if s[0] != "Decay":
             continue
